@@ -14,5 +14,6 @@ for d in seeded/*${SEL}*/; do
   if ! git -C "$WT" apply "$PWD/$d/patch.diff" 2>/dev/null; then echo "$id: patch does not apply"; continue; fi
   out=$(VERIF_REPO="$WT" VERIF_FAIL_FAST=1 bin/check $prop $TIER --no-evidence 2>&1); rc=$?
   git -C "$WT" checkout -q -- .
-  echo "$id: rc=$rc $(echo "$out" | grep -c '^VIOLATION') violations; $(echo "$out" | grep -m1 'violated obligation' | cut -c1-160)"
+  echo "$id: rc=$rc $(echo "$out" | grep -c '^VIOLATION') violations, $(echo "$out" | grep -c 'unreproduced candidate:') unreproduced; $(echo "$out" | grep -m1 'violated obligation' | cut -c1-160)"
+  echo "$out" | grep 'unreproduced candidate:' | cut -c1-260 | head -3
 done
